@@ -9,6 +9,9 @@ open Neutrino.BM
 #print axioms C02_replace_heavier_when_full
 #print axioms C02_adopt_full
 #print axioms C02_adopt_full_reorg
+#print axioms C02_known_work_is_displaced_suffix
+#print axioms C02_known_work_every_history
+#print axioms C02_decision_by_displaced_work
 #print axioms C02_work_monotone_partial
 #print axioms C02_work_monotone_counterexample
 #print axioms C02_replace_only_heavier_counterexample
